@@ -517,6 +517,11 @@ class CallMixin:
                 self.assume_axiom(r.b <= n)
                 self.assume_axiom(z3.Implies(r.b > 0, z3.And(0 <= w, w < n, z3.Not(pred(s.char(w))))))
                 self.assume_axiom(z3.Implies(r.b <= 0, z3.ForAll([k], z3.Implies(z3.And(0 <= k, k < n), pred(s.char(k))))))
+                # a non-empty result begins / ends with a character outside the stripped class
+                if name in ("strip", "lstrip"):
+                    self.assume_axiom(z3.Implies(r.b > 0, z3.Not(pred(r.char(z3.IntVal(0))))))
+                if name in ("strip", "rstrip"):
+                    self.assume_axiom(z3.Implies(r.b > 0, z3.Not(pred(r.char(r.b - 1)))))
             return r
         if name == "endswith" and isinstance(args[0], VStr) and args[0].kind == "lit":
             lit = args[0].a
